@@ -454,9 +454,21 @@ Section Monitors.
     | EReturned _ r :: t => if is_fail r then Some (r, term_seen) else first_fail t term_seen
     | _ :: t => first_fail t term_seen
     end.
+  (** evaluations in progress at the moment the run returned *)
+  Fixpoint live_at_ready (l : list ev) (live : N) : N :=
+    match l with
+    | [] => 0
+    | EStart _ _ _ :: t => live_at_ready t (live + 1)
+    | EReturned _ _ :: t => live_at_ready t (live - 1)
+    | EReady _ :: _ => live
+    | _ :: t => live_at_ready t live
+    end.
+
   Definition mon_C06 : bool :=
     match first_fail es false with
     | Some (r, false) =>
+        (has (fun e => match e with ECloseCmd | ECloseReports | EHang => true | _ => false end) ||
+         N.eqb (live_at_ready es 0) 0) &&
         no_start_after (fun e => match e with EReturned _ r' => is_fail r' | _ => false end) es &&
         match final with
         | Some (OROk _ _ _ _) => false
